@@ -555,7 +555,9 @@ func run(s *scenario) {
 	switch s.Kind {
 	case "stale":
 		// the handshake deadline must be gone: virtual time passes on the established connection
-		w.Emit(vt.Ev{"event": "Fire", "armed": vraw.FireReadDeadline()})
+		// (read or write side: a handshake timer that stays armed for writes kills the connection just the same)
+		rA, wA := vraw.FireReadDeadline(), vraw.FireWriteDeadline()
+		w.Emit(vt.Ev{"event": "Fire", "armed": rA || wA, "read": rA, "write": wA})
 		pe.write([]byte("still alive"))
 		n, err, pan := appRead()
 		emitRead(n, err, pan)
